@@ -289,6 +289,11 @@ func runC01(c *Ctx) {
 		}
 	}
 
+	// ---- D5 the key is remembered by CID only after the payload was opened and verified.
+	// (The by-CID key switches the signature check off on the next open: if it could be stored
+	// for an envelope that was then rejected, a retry of the same log entry would deliver it.)
+	checkKeyByCIDOnlyAfterVerify(c, "D5", payloadFns)
+
 	// ---- D3 binding agreement
 	checkCounterIncrements(c, "D3", seal)
 	sealScope := w.reachableFuncs([]*ssa.Function{seal}, 6)
@@ -410,6 +415,89 @@ func runC01(c *Ctx) {
 			}
 			c.check(okInfo, "D4", fnName(cs.Caller)+"->"+kf.Name()+"+info", posOf(cs.Instr), "KDF info derives from the group public key", fmt.Sprintf("the chain KDF is called with info not derived from the group public key (roots %v)", rs.list()))
 		}
+	}
+}
+
+// checkKeyByCIDOnlyAfterVerify: every Put on the by-CID namespace is reached only after a
+// call that opened and verified the payload has succeeded, on every module call path.
+func checkKeyByCIDOnlyAfterVerify(c *Ctx, rule string, payloadFns []*ssa.Function) {
+	w := c.W
+	ei := w.effects()
+	cg := w.callGraph()
+	verified := map[*ssa.Function]bool{}
+	for _, f := range payloadFns {
+		verified[f] = true
+	}
+	vc := newVerifierCache(w, checkRole{Name: "verified-open", Match: func(fn *ssa.Function, ci ssa.CallInstruction) []ssa.Value {
+		if cal := staticCallee(ci.Common()); cal != nil && verified[cal] {
+			if v := errVerdict(ci); v != nil {
+				return []ssa.Value{v}
+			}
+		}
+		return nil
+	}})
+	isVerifiedOpen := func(f *ssa.Function) bool { return f != nil && (verified[f] || vc.info(f).IsVerifier) }
+	// afterVerify: instr is dominated by the nil-error side of a call to a verified-open function
+	afterVerify := func(in ssa.Instruction) bool {
+		fn := in.Parent()
+		for _, b := range fn.Blocks {
+			for _, x := range b.Instrs {
+				call, ok := x.(*ssa.Call)
+				if !ok || !isVerifiedOpen(staticCallee(call.Common())) {
+					continue
+				}
+				if v := errVerdict(call); v != nil {
+					for _, e := range edgesOfVerdict(v).Accept {
+						if edgeDominates(e, in.Block()) {
+							return true
+						}
+					}
+				}
+			}
+		}
+		return false
+	}
+	var walk func(in ssa.Instruction, seen map[*ssa.Function]bool, chain []string) []string
+	walk = func(in ssa.Instruction, seen map[*ssa.Function]bool, chain []string) []string {
+		fn := in.Parent()
+		here := append([]string{fnName(fn)}, chain...)
+		if afterVerify(in) {
+			return nil
+		}
+		if seen[fn] {
+			return nil
+		}
+		callers := cg.callers[fn]
+		if len(callers) == 0 || (fn.Object() != nil && fn.Object().Exported()) {
+			return here
+		}
+		seen[fn] = true
+		defer delete(seen, fn)
+		for _, cs := range callers {
+			if bad := walk(cs.Instr.(ssa.Instruction), seen, here); bad != nil {
+				return bad
+			}
+		}
+		return nil
+	}
+	n := 0
+	for _, fn := range w.ModFuncs {
+		if fnPkg(fn).Path() != pkgSecret {
+			continue
+		}
+		for _, s := range ei.sitesIn(fn) {
+			if !s.Direct || !s.has(eff("Put", nsByCID)) {
+				continue
+			}
+			n++
+			c.analysed(fn)
+			bad := walk(s.Instr.(ssa.Instruction), map[*ssa.Function]bool{}, nil)
+			c.check(bad == nil, rule, fnName(fn)+"+Put[messageKeyForCIDs]", posOf(s.Instr), "the message key is stored by CID only after the payload was opened and its signature verified",
+				"the message key can be stored by CID before the payload is verified (path "+strings.Join(bad, " -> ")+"): a rejected forgery leaves its key behind and a second open of the same entry skips the signature check")
+		}
+	}
+	if n == 0 {
+		c.undecided(rule, "Put[messageKeyForCIDs]", token.NoPos, "no Put on the by-CID namespace found")
 	}
 }
 
